@@ -127,8 +127,8 @@ impl SimNode {
         let km = self.km;
         let dir = self.dir.clone();
         let cfg = self.cfg.clone();
-        let mut pubk = km;
-        pubk[1] = pubk[1].wrapping_add(1);
+        // the public key given to the database is the X25519 meeting key, derived as Discret::new derives it
+        let pubk: [u8; 32] = *self.meeting_secret().public_key().as_bytes();
         let res = rt.block_on(async move {
             let h = tokio::spawn(async move {
                 let ev = EventService::new();
@@ -421,6 +421,42 @@ impl SimNode {
     pub fn signing_key(&self) -> dv::Ed25519SigningKey {
         let signature_key = dv::derive_key(&format!("{} SIGNING_KEY", APP), &self.km);
         dv::Ed25519SigningKey::create_from(&signature_key)
+    }
+
+    pub fn meeting_secret(&self) -> dv::MeetingSecret {
+        let k = dv::derive_key(&format!("{}{}", "MEETING_SECRET", APP), &self.km);
+        dv::MeetingSecret::new(k)
+    }
+
+    /// run a (possibly non-Send, borrowing) future to completion on this node; the root future never parks,
+    /// so the paused clock cannot auto-advance while helper threads work
+    pub fn drive<F: Future>(&mut self, fut: F) -> Result<F::Output, Hung> {
+        self.activate();
+        let rt = self.rt.as_ref().expect("node is down");
+        let r = rt.block_on(async move {
+            tokio::pin!(fut);
+            let t0 = Instant::now();
+            let mut turns = 0u64;
+            loop {
+                tokio::select! {
+                    biased;
+                    v = &mut fut => return Ok(v),
+                    _ = tokio::task::yield_now() => {}
+                }
+                std::thread::yield_now();
+                turns += 1;
+                if turns % 1024 == 0 && t0.elapsed() > hang_limit() {
+                    return Err(Hung::Run);
+                }
+            }
+        });
+        match r {
+            Ok(v) => {
+                self.settle()?;
+                Ok(v)
+            }
+            Err(e) => Err(e),
+        }
     }
 
     /// a read-only connection for oracles (opened after a settle)
